@@ -1,7 +1,8 @@
 """Shared case generators and Coq renderers for Gherkin data."""
 from vcheck import cN, cstr, cbool, copt, clist, cpair
 
-TAGS = ["x", "y", "z", "serial", "allow.skipped", "flaky", "wip", "é"]
+# parameterised look-alikes on purpose: `allow` vs `allow.skipped`, `db` vs `db.postgres`, `retry` vs `retry(3)`, `x` vs `x1`
+TAGS = ["x", "y", "z", "serial", "allow.skipped", "allow", "flaky", "wip", "é", "db", "db.postgres", "retry", "retry(3)", "x1"]
 NAMES = ["a", "b", "login", "log out", "a<b>&\"c'", "ünï", "", "a b c", "x1", "retry me"]
 STEPS = ["foo", "bar 1", "baz \"q\"", "an <arg>", "é step", "x"]
 
